@@ -108,7 +108,16 @@ class Ctx:
         sites = [s for s in names.scan(self.repo) if s.fi.fq in fq and s.fi.name not in VOCABULARY]
         # prefix tests and cuts are judged again by the label analysis, which reads the whole match condition (a raw prefix test next
         # to a test of the following character is boundary-safe; the lint looks at one operation at a time)
-        held = lambda s: s.verdict == "unknown" or (s.verdict == "unsafe" and s.op in ("startswith", "slice-by-len", "removeprefix"))  # noqa: E731
+        def held(s) -> bool:
+            if s.verdict == "unknown":
+                return True
+            if s.verdict != "unsafe":
+                return False
+            if s.op in ("startswith", "slice-by-len", "removeprefix", "partition"):
+                return True
+            # replace(prefix, alias, 1): only the first occurrence - the matched prefix - is replaced
+            return s.op == "replace" and isinstance(s.node, ast.Call) and len(s.node.args) == 3 and isinstance(s.node.args[2], ast.Constant) and s.node.args[2].value == 1
+
         self.unknown_sites = [s for s in sites if held(s)]
         add_sites(self.repo, self.res, "C17.R1", [s for s in sites if not held(s)])
         # the number of string operations on names is not fixed (component-wise or ancestor-walking mechanisms have none):
